@@ -118,7 +118,7 @@ class Expr:
 
 
 HEADER = ("(* GENERATED by harness/translate.py from {src} — do not edit; rewritten on every run *)\n"
-          "From Coq Require Import List Bool Arith NArith ZArith QArith.\nFrom J2M.Model Require Import Base.\nImport ListNotations.\n\n")
+          "From Coq Require Import List Bool Arith NArith ZArith.\nFrom J2M.Model Require Import Base.\nImport ListNotations.\n\n")
 
 
 # ----------------------------------------------------------------------------------------------------------------
@@ -273,9 +273,83 @@ def gen_labels():
     return out
 
 
+def gen_cmp():
+    """registry.py: comparator bodies, defaults, the any() combination, the default policy"""
+    from fractions import Fraction
+    tree = parse("registry.py")
+
+    def ret_expr(clsname):
+        c = find_class(tree, clsname)
+        f = find_func(c, "cmp")
+        if [a.arg for a in f.args.args] != ["self", "fields_a", "fields_b"]:
+            raise Unsupported(f"{clsname}.cmp signature")
+        body = [st for st in f.body if not (isinstance(st, ast.Expr) and isinstance(st.value, ast.Constant))]
+        if len(body) != 1 or not isinstance(body[0], ast.Return):
+            raise Unsupported(f"{clsname}.cmp body")
+        return c, body[0].value
+
+    names = {"fields_a": "a", "fields_b": "b"}
+    # exact
+    _, e = ret_expr("ModelFieldsEquals")
+    if not (isinstance(e, ast.Compare) and len(e.ops) == 1 and isinstance(e.ops[0], ast.Eq)
+            and ast.unparse(e.left) == "fields_a" and ast.unparse(e.comparators[0]) == "fields_b"):
+        raise Unsupported("ModelFieldsEquals.cmp: " + ast.unparse(e))
+    exact = "(set_eqb a b)"
+    # percent: len(a & b) / len(a | b) >= self.percent_fields
+    c, e = ret_expr("ModelFieldsPercentMatch")
+    ex = Expr(names)
+    if not (isinstance(e, ast.Compare) and len(e.ops) == 1 and isinstance(e.left, ast.BinOp) and isinstance(e.left.op, ast.Div)
+            and ast.unparse(e.comparators[0]) == "self.percent_fields"):
+        raise Unsupported("ModelFieldsPercentMatch.cmp: " + ast.unparse(e))
+    L, R = ex.nat(e.left.left), ex.nat(e.left.right)
+    op = e.ops[0]
+    # L/R op num/den  <=>  (den*L) op (num*R)   for R > 0
+    percent = ex.cmp(op, f"(den * {L})", f"(num * {R})")
+    percent = f"match {R} with O => None | _ => Some {percent} end"
+    dflt = class_const(c, "DEFAULT")
+    if not (isinstance(dflt, ast.Constant) and isinstance(dflt.value, (int, float))):
+        raise Unsupported("ModelFieldsPercentMatch.DEFAULT")
+    fr = Fraction(repr(dflt.value))
+    init = find_func(c, "__init__")
+    if ast.unparse(init.args) != "self, percent_fields: float=DEFAULT" or "self.percent_fields = percent_fields" not in ast.unparse(init):
+        raise Unsupported("ModelFieldsPercentMatch.__init__")
+    # number
+    c2, e = ret_expr("ModelFieldsNumberMatch")
+    ex2 = Expr(names, {"number_fields": "n"})
+    number = ex2.bool(e)
+    d2 = nat_const(class_const(c2, "DEFAULT"))
+    init2 = find_func(c2, "__init__")
+    if ast.unparse(init2.args) != "self, number_fields: int=DEFAULT" or "self.number_fields = number_fields" not in ast.unparse(init2):
+        raise Unsupported("ModelFieldsNumberMatch.__init__")
+    # registry: default policy and the any() combination over key sets
+    reg = find_class(tree, "ModelRegistry")
+    dm = ast.unparse(class_const(reg, "DEFAULT_MODELS_CMP"))
+    if dm != "(ModelFieldsPercentMatch(), ModelFieldsNumberMatch())":
+        raise Unsupported("DEFAULT_MODELS_CMP = " + dm)
+    fn = find_func(reg, "_models_cmp_fn")
+    body = [ast.unparse(st) for st in fn.body if not (isinstance(st, ast.Expr) and isinstance(st.value, ast.Constant))]
+    want = ["fields_a = set(model_a.type.keys())", "fields_b = set(model_b.type.keys())",
+            "return any((cmp.cmp(fields_a, fields_b) for cmp in self._models_cmp))"]
+    if body != want:
+        raise Unsupported("_models_cmp_fn body: " + repr(body))
+    ini = ast.unparse(find_func(reg, "__init__"))
+    if "self._models_cmp = models_cmp or self.DEFAULT_MODELS_CMP" not in ini:
+        raise Unsupported("ModelRegistry.__init__ default comparators")
+    out = HEADER.format(src="registry.py")
+    out += "From J2M.Model Require Import Cmp.\n"
+    out += f"Definition cmp_equals (a b : list str) : option bool := Some {exact}.\n"
+    out += f"Definition cmp_percent (num den : nat) (a b : list str) : option bool := {percent}.\n"
+    out += f"Definition cmp_number (n : nat) (a b : list str) : option bool := Some {number}.\n"
+    out += f"Definition DEFAULT_PERCENT : nat * nat := ({fr.numerator}, {fr.denominator}).\n"
+    out += f"Definition DEFAULT_NUMBER : nat := {d2}.\n"
+    out += "Definition default_policy : list cmp_spec := [CPercent (fst DEFAULT_PERCENT) (snd DEFAULT_PERCENT); CNumber DEFAULT_NUMBER].\n"
+    return out
+
+
 GENERATORS = {
     "Limits": gen_limits,
     "Labels": gen_labels,
+    "Cmp": gen_cmp,
 }
 
 
